@@ -190,7 +190,8 @@ def filt_case():
         thorough=100000, quick_shards=4, thorough_shards=16,
         rule='random graphs x 1-3 filters (types, tags, PathContains, Not, '
         'Any) with optional trailing ...: every Variable/array leaf lands in '
-        'the first matching state only; non-exhaustive filters raise; merging '
+        'the first matching state only; non-exhaustive filters raise in split '
+        'and merely leave the rest out in nnx.state; merging '
         'the states in every permutation rebuilds an isomorphic graph; non-'
         'trivial = >=2 filters and graph has an alias or cycle')
 def filters_and_merge_order(case, ctx):
@@ -209,7 +210,17 @@ def filters_and_merge_order(case, ctx):
   if left:
     expect_raises(ValueError, lambda: nnx.split(root, *filters),
                   'split with non-exhaustive filters')
-    ctx.note(labels=['non-exhaustive'])
+    # nnx.state selects: leaves matched by no filter are simply left out
+    with sut(f'state({len(filters)} non-exhaustive filters)'):
+      sts = nnx.state(root, *filters)
+    sts = sts if isinstance(sts, tuple) else (sts,)
+    require(len(sts) == len(filters), 'one state per filter')
+    for i, s_ in enumerate(sts):
+      got = sorted(statelib.to_flat_state(s_).paths)
+      require(got == sorted(expect[i]), lambda: f'nnx.state group {i} holds '
+              f'{got}, first-match reference {sorted(expect[i])} (filters '
+              f'{filters!r}, {len(left)} leaves match no filter)')
+    ctx.note(labels=['non-exhaustive', f'filters{len(fls)}'])
     return
   with sut('split(filters)'):
     gd, *states = nnx.split(root, *filters)
